@@ -203,9 +203,19 @@ class AppFactory(Factory):
                               'the application protocol of this connection was built by the factory handed to an EARLIER '
                               'connect() on the same endpoint object (whose own SOCKS connection never got an answer)')
         self.run.on_app_event('buildProtocol')
-        p = AppProto(self.run)
+        if self.run.ch.chance(1, 4, 'falsyapp'):
+            # an application protocol with a length (a queue of outstanding requests, say) is false while that is 0
+            self.run.sim.probe('application-protocol-object-is-falsy')
+            p = QueueLikeAppProto(self.run)
+        else:
+            p = AppProto(self.run)
         self.protos.append(p)
         return p
+
+
+class QueueLikeAppProto(AppProto):
+    def __len__(self):
+        return 0
 
 
 HOST_CHARS = 'abcdefghijklmnopqrstuvwxyz0123456789-'
